@@ -219,7 +219,12 @@ Definition to_vrles (rles : list (list (Z * Z))) : list (list vfrag) :=
   isort vrle_leb (map (vrle_of_sig rles) (sigs_of rles)).
 
 (* ------------------------------------------------------------------ refined fragments, rendering *)
-Record frag := { f_re : str; f_min : Z; f_max : option Z; f_fixed : bool }.
+(* what a fragment repeats: an escaped literal string, a raw (unescaped) character, a category, or a
+   bracket expression over a set of punctuation characters *)
+Inductive atom := ALit (s : str) | ARaw (c : Z) | AClass (code : Z) | ABracket (chars : str).
+Record frag := { f_atom : atom; f_min : Z; f_max : option Z }.
+(* the 'fixed' label of rexpy's 4-tuples: everything but a category code *)
+Definition f_fixed (f : frag) : bool := match f_atom f with AClass _ => false | _ => true end.
 
 Definition capture_group (s : str) : str :=
   if startswith [40] s && endswith [41] s then s else [40] ++ s ++ [41].
@@ -238,24 +243,29 @@ Definition quantify (regex : str) (m : Z) (M : option Z) : str :=
     else regex ++ [123] ++ dec_of_Z m ++ [44] ++ dec_of_Z M' ++ [125]
   end.
 
+(* the regular-expression text of an atom (c if fixed, else Cats[c].re_string) *)
+Definition atom_text (out full : bool) (e : str) (a : atom) : res str :=
+  match a with
+  | ALit s => Ok (escape full s)
+  | ARaw c => Ok [c]
+  | AClass code => match cat_re out e code with Some r => Ok r | None => Err E_BAD_CODE end
+  | ABracket chars => Ok (escaped_bracket false chars)
+  end.
+
 (* Extractor.fragment2re (as_re = True) *)
-Definition fragment2re (out : bool) (e : str) (tagged : bool) (f : frag) : res str :=
-  do regex <- (if f_fixed f then Ok (f_re f)
-               else match f_re f with
-                    | [code] => match cat_re out e code with Some r => Ok r | None => Err E_BAD_CODE end
-                    | _ => Err E_BAD_CODE
-                    end);
+Definition fragment2re (out full : bool) (e : str) (tagged : bool) (f : frag) : res str :=
+  do regex <- atom_text out full e (f_atom f);
   let part := quantify regex (f_min f) (f_max f) in
   Ok (if tagged && negb (f_fixed f) then capture_group part else part).
 
 (* Extractor.vrle2re *)
-Definition vrle2re (out : bool) (e : str) (stripped : bool) (tagged : bool) (fs : list frag) : res str :=
-  do parts <- mapM (fragment2re out e tagged) fs;
+Definition vrle2re (out full : bool) (e : str) (stripped : bool) (tagged : bool) (fs : list frag) : res str :=
+  do parts <- mapM (fragment2re out full e tagged) fs;
   let ws := if stripped then s2l "\s*" else [] in
   Ok ([94] ++ ws ++ List.concat parts ++ ws ++ [36]).
 
 Definition frag_of_vfrag (v : vfrag) : frag :=
-  {| f_re := [vf_code v]; f_min := vf_min v; f_max := vf_max v; f_fixed := false |}.
+  {| f_atom := AClass (vf_code v); f_min := vf_min v; f_max := vf_max v |}.
 
 (* ------------------------------------------------------------------ analyse / refine *)
 Inductive tri := TNone | TFalse | TSome (v : list (Z * Z * Z)).   (* (key, min, max) *)
@@ -333,7 +343,8 @@ Fixpoint zip_with {A B C} (f : A -> B -> C) (l1 : list A) (l2 : list B) : list C
 (* plusify_vrle *)
 Definition plusify (fixed : bool) (v : Z * Z * Z) : frag :=
   let '(c, m, M) := v in
-  {| f_re := [c]; f_min := m; f_max := if Z.leb (M - m) max_vrle_range then Some M else None; f_fixed := fixed |}.
+  {| f_atom := if fixed then ARaw c else AClass c; f_min := m;
+     f_max := if Z.leb (M - m) max_vrle_range then Some M else None |}.
 
 Definition general_order (e : str) : list Z :=
   match e with [] => gen_rexpy_general_order_plain | _ => gen_rexpy_general_order_extras end.
@@ -342,15 +353,15 @@ Definition tri_nonempty (t : tri) : option (list (Z * Z * Z)) :=
   match t with TSome (x :: l) => Some (x :: l) | _ => None end.
 
 (* one fragment of refine_fragments: returns the output fragments and the new group count *)
-Definition refine_one (ct : chartab) (full_esc : bool) (max_punc : Z) (e : str) (n_groups : Z) (v : vfrag) (a : acc) : list frag * Z :=
+Definition refine_one (ct : chartab) (max_punc : Z) (e : str) (n_groups : Z) (v : vfrag) (a : acc) : list frag * Z :=
   let c := vf_code v in
-  let single m M re := ([{| f_re := re; f_min := m; f_max := M; f_fixed := true |}], n_groups) in
-  let plain re := ([{| f_re := re; f_min := vf_min v; f_max := vf_max v; f_fixed := false |}], n_groups) in
+  let single m M at_ := ([{| f_atom := at_; f_min := m; f_max := M |}], n_groups) in
+  let plain code := ([{| f_atom := AClass code; f_min := vf_min v; f_max := vf_max v |}], n_groups) in
   match a_strings a with
-  | [s] => single 1 (Some 1) (escape full_esc s)
+  | [s] => single 1 (Some 1) (ALit s)
   | _ =>
     match a_chars a with
-    | [ch1] => single (vf_min v) (vf_max v) (escape full_esc [ch1])
+    | [ch1] => single (vf_min v) (vf_max v) (ALit [ch1])
     | _ =>
       if Z.eqb c cUC then
         match tri_nonempty (a_c a) with
@@ -358,8 +369,8 @@ Definition refine_one (ct : chartab) (full_esc : bool) (max_punc : Z) (e : str) 
         | None =>
           let general :=
             match List.find (fun code => forallb (cat_sem ct false e code) (a_chars a)) (general_order e) with
-            | Some code => plain [code]
-            | None => plain [c]
+            | Some code => plain code
+            | None => plain c
             end in
           match tri_nonempty (a_fc a) with
           | Some rlefc =>
@@ -370,15 +381,15 @@ Definition refine_one (ct : chartab) (full_esc : bool) (max_punc : Z) (e : str) 
           end
         end
       else if Z.eqb c cP && Z.leb (Z.of_nat (List.length (a_chars a))) max_punc then
-        single (vf_min v) (vf_max v) (escaped_bracket false (a_chars a))
-      else plain [c]
+        single (vf_min v) (vf_max v) (ABracket (a_chars a))
+      else plain c
     end
   end.
 
-Fixpoint refine_all (ct : chartab) (full_esc : bool) (max_punc : Z) (e : str) (n_groups : Z) (vs : list vfrag) (accs : list acc) : list frag :=
+Fixpoint refine_all (ct : chartab) (max_punc : Z) (e : str) (n_groups : Z) (vs : list vfrag) (accs : list acc) : list frag :=
   match vs, accs with
   | v :: vs', a :: accs' =>
-    let '(fs, n') := refine_one ct full_esc max_punc e n_groups v a in fs ++ refine_all ct full_esc max_punc e n' vs' accs'
+    let '(fs, n') := refine_one ct max_punc e n_groups v a in fs ++ refine_all ct max_punc e n' vs' accs'
   | _, _ => []
   end.
 
@@ -398,7 +409,7 @@ Record examples := { ex_strings : list str; ex_freqs : list Z }.
 
 Definition refine_vrle (ct : chartab) (o : ropts) (e : str) (stripped : bool) (gt : groups_table)
            (strings : list str) (rles : list (list (Z * Z))) (vrle : list vfrag) : res (list frag) :=
-  do regex <- vrle2re false e stripped true (map frag_of_vfrag vrle);
+  do regex <- vrle2re false (o_full_escape o) e stripped true (map frag_of_vfrag vrle);
   let sig := map vf_code vrle in
   let mine := map fst (filter (fun sr => str_eqb (signature (snd sr)) sig) (combine strings rles)) in
   do groups <- mapM (fun ex => match lookup_groups gt regex ex with
@@ -408,7 +419,7 @@ Definition refine_vrle (ct : chartab) (o : ropts) (e : str) (stripped : bool) (g
   let step accs gs := zip_with (fun va g => acc_step ct e (o_vlf o) (z_max_strings_in_group o) (vf_code (fst va)) (snd va) g)
                                (combine vrle accs) gs in
   let accs := fold_left step groups (map (fun _ => acc0) vrle) in
-  Ok (refine_all ct (o_full_escape o) (z_max_punc_in_group o) e (Z.of_nat (List.length vrle)) vrle accs).
+  Ok (refine_all ct (z_max_punc_in_group o) e (Z.of_nat (List.length vrle)) vrle accs).
 
 Definition len_leb {T} (a b : list T) : bool := Nat.leb (List.length a) (List.length b).
 
@@ -420,7 +431,7 @@ Definition batch_extract (ct : chartab) (o : ropts) (e : str) (stripped : bool) 
   let vrles := to_vrles (dedup_by rle_eqb rles) in
   do refined <- mapM (refine_vrle ct o e stripped gt strings rles) vrles;
   let merged := match refined with [_] => refined | _ => isort len_leb refined end in
-  do rex <- mapM (vrle2re false e stripped (o_tag o)) merged;
+  do rex <- mapM (vrle2re false (o_full_escape o) e stripped (o_tag o)) merged;
   Ok (merged, rex).
 
 (* ------------------------------------------------------------------ clean *)
@@ -583,7 +594,7 @@ Definition run_extractor (ct : chartab) (o : ropts) (gt : groups_table) (mt : ma
     let keep := filter (fun i => negb (mem_nat i bad)) (seq 0 (List.length rex)) in
     let merged' := map (fun i => nth i merged []) keep in
     let rex' := map (fun i => nth i rex []) keep in
-    do final <- (if o_dialect_out o then mapM (vrle2re true e stripped (o_tag o)) merged' else Ok rex');
+    do final <- (if o_dialect_out o then mapM (vrle2re true (o_full_escape o) e stripped (o_tag o)) merged' else Ok rex');
     Ok {| lo_rex := final; lo_none := false; lo_examples := ex'; lo_passes := passes;
           lo_samples_left := List.length samples2; lo_last_failures := lastfail |}
   end.
